@@ -7,6 +7,8 @@ package main
 //   batch <hexjson> <hexjson> ...  one ProcessIndexRequestPle call
 //   flush                          flush every WIP buffer to its segment file
 //   rotate                         force segment rotation
+//   waitsync                       (restart on an existing dir, env VERIF_WAIT_SYNC=1) wait for the startup sync
+// env: VERIF_DATA_DIR=<dir> use this data dir and keep it; VERIF_CRASH_AT / VERIF_CRASH_LOG see c07_crash.go
 //   q <from> <size> <start> <end> <hex SPL>   run a query; prints one JSON line
 // stdout: one JSON line per q: {"recs":[{...}], "measure":[...], "groupByCols":[...], "measureFunctions":[...], "total":n, "err":"..."}
 import (
@@ -26,8 +28,12 @@ import (
 )
 
 func e2eWorkerMain() {
+	syncDone := installSyncWatch() // no-op unless VERIF_WAIT_SYNC is set (c07_crash.go)
 	dir := bootEngine()
-	defer os.RemoveAll(dir)
+	if !engineKeep {
+		defer os.RemoveAll(dir)
+	}
+	cmdNo := 0
 	in := bufio.NewScanner(os.Stdin)
 	in.Buffer(make([]byte, 1<<20), 1<<28)
 	out := bufio.NewWriter(os.Stdout)
@@ -71,10 +77,21 @@ func e2eWorkerMain() {
 			}
 			writer.ReleasePLEs(ples)
 		case "flush":
+			cmdNo++
+			crashNote(fmt.Sprintf("cmdstart:%d:flush", cmdNo)) // no-op unless VERIF_CRASH_LOG is set
 			z := time.Duration(0)
 			writer.FlushWipBufferToFile(&z, &z)
+			crashNote(fmt.Sprintf("cmddone:%d", cmdNo))
 		case "rotate":
+			cmdNo++
+			crashNote(fmt.Sprintf("cmdstart:%d:rotate", cmdNo))
 			writer.ForceRotateSegmentsForTest()
+			crashNote(fmt.Sprintf("cmddone:%d", cmdNo))
+		case "waitsync":
+			// restart on an existing data dir: wait until the startup goroutine that adopts segment dirs
+			// (query.initSyncSegMetaForAllIds) has finished; prints {"sync":"done"|"timeout"}
+			fmt.Fprintf(out, "{\"sync\":%q}\n", waitSync(syncDone))
+			out.Flush()
 		case "q":
 			from, _ := strconv.Atoi(f[1])
 			size, _ := strconv.Atoi(f[2])
